@@ -261,7 +261,7 @@ def _auto_body(front, mask, skipmask, cv):
 
 def c10_auto(front: int, mask: int, skipmask: int, cv: int) -> bool:
     """
-    pre: 0 <= front <= 2 and 0 <= mask <= 7 and 0 <= skipmask <= 7 and (skipmask & ~mask) == 0 and 0 <= cv <= 3
+    pre: front == P.front and 0 <= mask <= 7 and 0 <= skipmask <= 7 and (skipmask & ~mask) == 0 and 0 <= cv <= 3
     post: _
     """
     return run(_auto_body, front, mask, skipmask, cv)
@@ -461,7 +461,8 @@ def JOBS(tier):
                 for ch in ALPHABET:
                     jobs.append({"func": "c10_field", "timeout": t, "path_timeout": 60,
                                  "part": {"front": front, "field": field, "maxlen": 3, "first": ch}})
-    jobs.append({"func": "c10_auto", "timeout": t, "part": {}})
+    for front in (0, 1, 2):
+        jobs.append({"func": "c10_auto", "timeout": t, "part": {"front": front}})
     jobs.append({"func": "c10_skip", "timeout": t, "part": {}})
     jobs.append({"func": "c10_h2", "timeout": t, "part": {"maxlen": 2 if quick else 3}})
     return jobs
